@@ -149,7 +149,9 @@ Section Tables.
   Variable fuel : nat.
   Variable I : compat_input.
   Let P := ci_reg I.      (* input.types / input.tuples: what extract_function_type_info reads *)
-  Let PX := ci_xreg I.    (* `lookup`: the program's types extended with the missing process types *)
+  (* `lookup`: the program's types extended with the missing process types (= ci_xreg I; a parameter
+     here so that the two entry points below compute it once, as with_process_types does) *)
+  Variable PX : registry.
 
   (* is_compatible; out of fuel counts as "not compatible" (the real call would not return) *)
   Definition compat (a b : nat) : bool :=
@@ -205,21 +207,31 @@ Section Tables.
   (* compatibility.rs:63-92 *)
   Definition pattern_type_ids : list nat := flat_map f_istypes (ci_functions I).
 
+End Tables.
+
+Section EntryPoints.
+  Variable cfg : rel_cfg.
+  Variable fuel : nat.
+  Variable I : compat_input.
+  Let P := ci_reg I.
+
   Definition compute_type_compatibility : list (list ctag) :=
+    let PX := ci_xreg I in
     let index := build_index PX in
     map (fun pattern_id =>
-           if existsb (Nat.eqb pattern_id) pattern_type_ids
-           then compute_compatible_concrete_types index pattern_id
+           if existsb (Nat.eqb pattern_id) (pattern_type_ids I)
+           then compute_compatible_concrete_types cfg fuel I PX index pattern_id
            else [])
         (seq 0 (length (types P))).
 
   (* compatibility.rs:115-147 (the memo is an optimisation: same value per parameter type) *)
   Definition compute_param_compatibility : list (list ctag) * list (list ctag) :=
+    let PX := ci_xreg I in
     let index := build_index PX in
     (map (fun f => let '(parameter, _, _, _) := extract_function_type_info P f in
-                   compute_compatible_concrete_types index parameter) (ci_functions I),
-     map (fun b => compute_compatible_concrete_types index (fst b)) (ci_builtins I)).
-End Tables.
+                   compute_compatible_concrete_types cfg fuel I PX index parameter) (ci_functions I),
+     map (fun b => compute_compatible_concrete_types cfg fuel I PX index (fst b)) (ci_builtins I)).
+End EntryPoints.
 
 (* ---- executor.rs:1632-1671 ---- *)
 Definition mem_tag (c : ctag) (s : list ctag) : bool := existsb (ctag_eqb c) s.
